@@ -268,7 +268,8 @@ theorem translated_accounted : dnsLoopsTranslated =
     [("packet.decodeName", "genDecodeName"), ("packet.(DNS).IsValid", "genDNS_IsValid"), ("packet.(DNS).QDCount", "genDNS_QDCount"),
      ("packet.DecodeQuestion", "genDecodeQuestion"), ("packet.(*DNSEntry).decodeRRs", "genDNSEntry_decodeRRs"),
      ("packet.(DNS).ANCount", "genDNS_ANCount"), ("packet.(*DNSEntry).DecodeAnswers", "genDNSEntry_DecodeAnswers"),
-     ("packet.encodeName", "genEncodeName"), ("packet.EncodeDNSQuery", "genEncodeDNSQuery"), ("packet.encode", "genEncode")] := by decide
+     ("packet.encodeName", "genEncodeName"), ("packet.EncodeDNSQuery", "genEncodeDNSQuery"), ("packet.encode", "genEncode"),
+     ("packet.NewDNSEntry", "genNewDNSEntry")] := by decide
 
 /-- … none is refused -/
 theorem untranslated_accounted : dnsLoopsUntranslated = [] := by decide
